@@ -214,12 +214,11 @@ Section Py.
     | _, _ => false
     end.
 
-  (* KeyType.__lt__ within one scheme *)
+  (* KeyType.__lt__ within one scheme (after fix c532287):
+     offset = curves[prefix][1];  (raw[offset:], raw[:offset]) < (other.raw[offset:], other.raw[:offset]) *)
+  Definition key_off (c : curve) : nat := match c with P256 => 1 | _ => 0 end.
   Definition py_key_lt (c : curve) (p q : bytes) : bool :=
-    match c with
-    | P256 => tuple2_ltb (tl p) (firstn 1 p) (tl q) (firstn 1 q)   (* (raw[1:], raw[:1]) *)
-    | _ => lex_ltb p q
-    end.
+    tuple2_ltb (skipn (key_off c) p) (firstn (key_off c) p) (skipn (key_off c) q) (firstn (key_off c) q).
 
   (* __lt__ *)
   Fixpoint py_lt (a b : val) : bool :=
